@@ -9,6 +9,10 @@ HANG = 20.0          # a call that has not returned after this many seconds is a
 IO_TIMEOUT = 30.0    # socket timeout of the raw clients
 
 
+class MethodAborted(BaseException):
+    """a failure that is not an Exception (like asyncio.CancelledError or KeyboardInterrupt)"""
+
+
 class Registry(object):
     """The callables registered on a server under test.  Every request carries a unique token which the
     method logs (under a lock) and echoes; slow methods wait for a gate (threading.Event), never sleep."""
@@ -53,7 +57,14 @@ class Registry(object):
         return [token, x]
 
     def fail(self, token):
+        """a failing method: by token, an ordinary exception, sys.exit() or another BaseException -- the dispatcher
+        turns every one of them into an error reply (`except:` in _dispatch), none may take the server down"""
         self.record(token)
+        h = sum(map(ord, str(token))) % 3
+        if h == 1:
+            raise SystemExit("failing method " + str(token))
+        if h == 2:
+            raise MethodAborted("failing method " + str(token))
         raise ValueError("failing method " + str(token))
 
     def slow(self, token):
